@@ -153,6 +153,11 @@ class TFObj(TF):
         super().__init__(payload_recipes, ret)
         self.s = s
 
+    def __eq__(self, other):  # a user-defined value object (like ReprObj)
+        return type(other) is type(self) and other.s == self.s and other.ret == self.ret and other.payload_recipes == self.payload_recipes
+
+    __hash__ = None
+
     def _repr_html_(self) -> str:
         return self.s
 
@@ -257,6 +262,16 @@ class NoRichRepr:
 
     _repr_html_ = None
     tagify = None
+
+
+class SingletonMeta(ht.MetadataNode):
+    """A metadata node that answers copy() with itself (a process-wide registry entry)."""
+
+    def __copy__(self):
+        return self
+
+    def __deepcopy__(self, memo):
+        return self
 
 
 class ResourceMeta(ht.MetadataNode):
@@ -382,7 +397,7 @@ class FlakyTF(TF):
         return super().tagify()
 
 
-HARNESS_DOUBLES = (ResourceMeta, MappingComponent, ReprObj, TF, TFObj, LazyMeta, SeqTF, DynObj)  # (StoredTF etc. are TF subclasses)
+HARNESS_DOUBLES = (ResourceMeta, SingletonMeta, MappingComponent, ReprObj, TF, TFObj, LazyMeta, SeqTF, DynObj)  # (StoredTF etc. are TF subclasses)
 
 _SHARED = {}
 
@@ -496,6 +511,8 @@ def _build(r):
             return ReprMeta()
         if r.get("resource"):
             return ResourceMeta()
+        if r.get("singleton"):
+            return SingletonMeta()
         if r.get("sub"):
             return SubMeta()
         return ht.MetadataNode()
